@@ -2,13 +2,26 @@ package stackage
 
 // C19 — Defrag removes every nil gap and nothing else.
 
-// p: n, nesting (0 flat, 1 inside a Stack, 2 as a Condition's expression),
-// limitMode (0 no argument, 1 symbolic limit)
+// p: n, nesting (0 flat, 1 inside a Stack, 2 as a Condition's expression, 3 two
+// levels down through a Condition, 4 nested and then SetNoNesting on the
+// holder, 5 held as pointer to an alias),
+// limitMode (0 no argument, 1 symbolic limit), index options (bit 0 negative,
+// bit 1 forward indices)
 func VH_C19(p []int) {
 	n := p[0]
 	s := List()
 	cfg, _ := s.config()
-	cfg.opt = cfgFlag(nondetUint16()) & (negidx | fwdidx)
+	optName := ""
+	if len(p) > 3 {
+		if p[3]&1 != 0 {
+			cfg.opt |= negidx
+			optName += "+neg"
+		}
+		if p[3]&2 != 0 {
+			cfg.opt |= fwdidx
+			optName += "+fwd"
+		}
+	}
 	pattern := ""
 	var want []any
 	run, maxRun := 0, 0
@@ -30,7 +43,8 @@ func VH_C19(p []int) {
 	if pattern == "" {
 		pattern = "empty"
 	}
-	verifCase(pattern)
+	// findings are keyed by pattern and by where the stack sits
+	verifCase(pattern + []string{"", "@stack", "@cond", "@cond-stack", "@stack-then-no-nesting", "@alias"}[p[1]] + []string{"", ":limit"}[p[2]] + optName)
 	hasNil := len(want) != n
 	before := vhSnapDeep(s, 0)
 	var outer Stack
@@ -41,6 +55,14 @@ func VH_C19(p []int) {
 		outer = And().Push("x", s)
 	case 2:
 		outer = And().Push(Cond("kw", Eq, s))
+	case 3: // two levels down, through a Condition's expression Stack
+		outer = And().Push(Or().Push("d"), Cond("kw", Eq, Or().Push("e", s)))
+	case 4: // nested first, nesting switched off afterwards (no effect on what is there)
+		outer = And().Push("x", s)
+		outer.SetNoNesting(true)
+	case 5: // held as a pointer to an alias
+		a := vhAliasStack(s)
+		outer = Or().Push(&a, "y")
 	}
 	if p[2] == 0 {
 		outer.Defrag()
@@ -65,7 +87,7 @@ func VH_C19(p []int) {
 	}
 	verifAssert(ok, "compacted")
 	verifAssert(s.Err() == nil, "err")
-	if p[1] == 1 {
+	if p[1] == 1 || p[1] == 4 || p[1] == 5 {
 		verifAssert(outer.Len() == 2, "outer-untouched")
 	}
 	verifReach("end")
